@@ -1,4 +1,5 @@
 import Oidc.Shapes
+import Oidc.Proofs.CodeSession
 import Oidc.Proofs.World3
 import Oidc.Proofs.WorldHist
 import Oidc.Proofs.World2
@@ -130,5 +131,15 @@ theorem text_generateSecureRandomString_ok : Oidc.Shapes.Text_generateSecureRand
 theorem text_TraefikOidc_ExchangeCodeForToken_ok : Oidc.Shapes.Text_TraefikOidc_ExchangeCodeForToken := by unfold Oidc.Shapes.Text_TraefikOidc_ExchangeCodeForToken; rfl
 theorem text_TraefikOidc_exchangeCodeForToken_ok : Oidc.Shapes.Text_TraefikOidc_exchangeCodeForToken := by unfold Oidc.Shapes.Text_TraefikOidc_exchangeCodeForToken; rfl
 theorem text_TraefikOidc_exchangeTokens_ok : Oidc.Shapes.Text_TraefikOidc_exchangeTokens := by unfold Oidc.Shapes.Text_TraefikOidc_exchangeTokens; rfl
+
+open Oidc.Generated Oidc.CodeRefine in
+/-- session.go's accessors for state, nonce and PKCE verifier as translated: what the callback compares the `state` parameter and the
+    ID token's nonce with, and what it presents as verifier, are exactly the strings the initiation stored (the comparison in
+    `handleCallback` is then plain string inequality: obligation `Shape_handleCallback`) -/
+theorem code_state_nonce_verifier_stored_as_is (sd : Go.SessData) (v : Go.Str) :
+    Code.SessionData_GetCSRF (Code.SessionData_SetCSRF sd v) = v ∧
+    Code.SessionData_GetNonce (Code.SessionData_SetNonce sd v) = v ∧
+    Code.SessionData_GetCodeVerifier (Code.SessionData_SetCodeVerifier sd v) = v :=
+  ⟨mainGet_mainSet _ sd v, mainGet_mainSet _ sd v, mainGet_mainSet _ sd v⟩
 
 end Oidc.Props.C03
